@@ -164,12 +164,19 @@ def verify_unit(unit_path, baseline, tier="quick", repo=None):
     os.makedirs(bdir, exist_ok=True)
     try:
         variants = {}
-        for mode in ("verify", "vac_fn", "vac_loop"):
+        for mode in ("verify", "vac_fn"):
             u = extract.build(unit_path, mode)
             variants[mode] = u
-            with open(os.path.join(bdir, {"verify": "unit.rs", "vac_fn": "vac_fn.rs", "vac_loop": "vac_loop.rs"}[mode]), "w") as f:
+            with open(os.path.join(bdir, {"verify": "unit.rs", "vac_fn": "vac_fn.rs"}[mode]), "w") as f:
                 f.write(u.text)
         unit = variants["verify"]
+        # one vacuity file per contracted loop ordinal (an assert(false) that fails hides the ones after it)
+        max_k = max([k for (q, k) in unit.spec.loop_clauses] + [0])
+        for k in range(1, max_k + 1):
+            u = extract.build(unit_path, "vac_loop:%d" % k)
+            variants["vac_loop:%d" % k] = u
+            with open(os.path.join(bdir, "vac_loop%d.rs" % k), "w") as f:
+                f.write(u.text)
         with open(os.path.join(bdir, "unit.diff"), "w") as f:
             f.write(unit.diff)
         with open(os.path.join(bdir, "rewrites.json"), "w") as f:
@@ -191,11 +198,10 @@ def verify_unit(unit_path, baseline, tier="quick", repo=None):
     res.notes = unit.spec.notes
     # ---- run the three files in parallel
     import concurrent.futures as cf
-    need_loop = any(unit.loops.get(q, 0) for q in unit.exec_fns) and bool(unit.spec.loop_clauses)
     jobs = {"verify": os.path.join(bdir, "unit.rs"), "vac_fn": os.path.join(bdir, "vac_fn.rs")}
-    if need_loop:
-        jobs["vac_loop"] = os.path.join(bdir, "vac_loop.rs")
-    with cf.ThreadPoolExecutor(max_workers=3) as ex:
+    for k in range(1, max_k + 1):
+        jobs["vac_loop:%d" % k] = os.path.join(bdir, "vac_loop%d.rs" % k)
+    with cf.ThreadPoolExecutor(max_workers=4) as ex:
         futs = {k: ex.submit(run_verus, p) for k, p in jobs.items()}
         runs = {k: f.result() for k, f in futs.items()}
     r = runs["verify"]
@@ -362,21 +368,18 @@ def _vacuity(res, variants, runs):
         vac = ["(vacuity file rejected by verus)"]
     loops_expected = 0
     loops_reached = 0
-    if "vac_loop" in runs:
-        vl = failing_fns(variants["vac_loop"], runs["vac_loop"])
-        u = variants["vac_loop"]
-        per_fn = {}
-        for q, ln in vl:
-            per_fn.setdefault(q, set()).add(ln)
-        for (q, k) in u.spec.loop_clauses:
-            loops_expected += 1
-        # every fn with loop contracts must show at least as many reachable loop bodies as contracted loops
-        for q in {q for (q, k) in u.spec.loop_clauses}:
-            want = len([1 for (q2, k) in u.spec.loop_clauses if q2 == q])
-            got = len(per_fn.get(q, ()))
-            loops_reached += min(got, want)
-            if got < want:
-                vac.append("%s (loop body unreachable or invariant contradictory: %d of %d)" % (q, got, want))
+    spec_loops = variants["verify"].spec.loop_clauses
+    for (q, k) in spec_loops:
+        loops_expected += 1
+        key = "vac_loop:%d" % k
+        if key not in runs:
+            vac.append("%s loop %d (no vacuity run)" % (q, k))
+            continue
+        hit = {qq for (qq, ln) in failing_fns(variants[key], runs[key])}
+        if q in hit:
+            loops_reached += 1
+        else:
+            vac.append("%s (loop %d body unreachable or invariant contradictory)" % (q, k))
     res.vacuity["loops_expected"] = loops_expected
     res.vacuity["loops_reached"] = loops_reached
     if vac:
